@@ -22,6 +22,8 @@ type Case struct {
 	Kind     string   `json:"kind"`
 	Tape     []uint32 `json:"tape"`
 	Sched    []uint32 `json:"sched"`
+	// Pol: the auxiliary tape of the schedule stream (scheduling policy, priorities)
+	Pol []uint32 `json:"pol,omitempty"`
 	// StartHash: digest of the starting mesh when it came out of a library
 	// routine whose result depends on Go map order (see startMesh3).
 	StartHash string `json:"start_hash,omitempty"`
@@ -70,7 +72,7 @@ func prefixed(p string, s []string) []string {
 
 func RunCase(t *testing.T, c *Case, src, sched *choice.Source, st *Stats) (fs []Finding) {
 	st.WantStart = c.StartHash
-	defer func() { c.Tape, c.Sched, c.StartHash = src.Tape(), sched.Tape(), st.StartHash }()
+	defer func() { c.Tape, c.Sched, c.Pol, c.StartHash = src.Tape(), sched.Tape(), sched.AuxTape(), st.StartHash }()
 	switch {
 	case c.Kind == "mesh3":
 		return runMesh3(t, src, sched, st)
